@@ -536,6 +536,45 @@ func c15cGen(r *rng, tier string, emit func(string)) {
 		op("serverHello", c15cRandomHello(r, true))
 	}
 
+	// 6b. every recognised extension alone in a minimal hello with EVERY body of length 0..3 over {0,1,2} and of
+	//     length 4 over {0,1} (all enclosing lengths consistent): the empty list, the empty name, the list length
+	//     that is one too large or too small, for each extension parser
+	for _, server := range []bool{false, true} {
+		for _, typ := range []int{0, 5, 10, 11, 13, 16, 18, 35, 13172, 0xff01, 21} {
+			var bodies [][]byte
+			var rec func(b []byte, n int, alpha int)
+			rec = func(b []byte, n int, alpha int) {
+				if len(b) == n {
+					bodies = append(bodies, append([]byte{}, b...))
+					return
+				}
+				for v := 0; v < alpha; v++ {
+					rec(append(b, byte(v)), n, alpha)
+				}
+			}
+			for n := 0; n <= 3; n++ {
+				rec(nil, n, 3)
+			}
+			rec(nil, 4, 2)
+			for _, b := range bodies {
+				body := append(c15cU16(0x0101), make([]byte, 32)...)
+				body = append(body, 0) // empty session id
+				if server {
+					body = append(body, 0xe0, 0x13, 0)
+				} else {
+					body = append(body, 0, 2, 0xe0, 0x13, 1, 0)
+				}
+				ex := append(c15cU16(typ), c15cVec(2, b)...)
+				body = append(body, c15cVec(2, ex)...)
+				kind, t := "clientHello", byte(1)
+				if server {
+					kind, t = "serverHello", 2
+				}
+				op(kind, append([]byte{t}, c15cVec(3, body)...))
+			}
+		}
+	}
+
 	// 7. marshal: the fields every accepted sample was parsed into, and fields outside the ranges of the length
 	//    fields (what marshal writes then is part of the model: lengths reduced modulo 2^8 / 2^16, names cut to
 	//    255 bytes, zero padding)
